@@ -56,9 +56,9 @@ func init() {
 		Configs: []string{"default", "oblig1", "default", "custom"},
 		N: func(tier string) int {
 			if tier == "thorough" {
-				return 480
+				return 2400
 			}
-			return 64
+			return 192
 		},
 		Setup: func(tier string, seed uint64, config string) string {
 			configureRegistries(config)
